@@ -462,7 +462,7 @@ func Facts(repo string) (string, error) {
 	out := render(writers, transformers, notes)
 	const tail = "end XmppModel.Generated.C19\n"
 	body := strings.TrimSuffix(out, tail)
-	return body + "\nsection PanicSkeletons\nopen XmppModel.Skeleton XmppModel.Skeleton.Stmt\n" + panicFacts(repo) + "end PanicSkeletons\n\n" + tail, nil
+	return body + "\nsection PanicSkeletons\nopen XmppModel.Skeleton XmppModel.Skeleton.Stmt\n" + panicFacts(repo) + "end PanicSkeletons\n\n" + enumFacts(repo) + tail, nil
 }
 
 // skeletons returns the prefix code of every writer (for `skel` lines).
@@ -561,7 +561,7 @@ func extract(repo string) (writers []writer, transformers, notes []string, err e
 func render(writers []writer, transformers, notes []string) string {
 	var sb strings.Builder
 	sb.WriteString("-- GENERATED by `harness facts C19` from the anchored files of C19; do not edit.\n")
-	sb.WriteString("import XmppModel.Model.Payload\nimport XmppModel.Model.Skeleton\n")
+	sb.WriteString("import XmppModel.Model.Payload\nimport XmppModel.Model.Skeleton\nimport XmppModel.Model.Payloads2\n")
 	sb.WriteString("namespace XmppModel.Generated.C19\nopen XmppModel.Payload\n\n")
 	for _, n := range notes {
 		sb.WriteString("-- note: " + n + "\n")
